@@ -42,6 +42,10 @@ def run(chk: Check, proj: Project) -> None:
     from .common import world
 
     chk.borrow("S11", "marker removal and placeholder substitution dominate every normal return, for both render types (shared with C04-S2)", lambda sub: C04.s2_consumed(sub, proj, world(proj)))
+    from ..absstr import Evaluator
+
+    chk.borrow("S13", "no bookkeeping record survives because its reader does not recognise it: every marker comment / placeholder the writers can emit (for every class name, a leading underscore included) is fully matched by the regex that removes it (shared with C04-S1)",
+               lambda sub: C04.s1_records(sub, proj, Evaluator(proj, world(proj).cg)), only=lambda o: "marker-comment" in o.construct or "placeholder" in o.construct.lower())
 
 
 def placeholder_roles(f) -> dict:
